@@ -1,0 +1,33 @@
+//! Read-only access for external verification harnesses.
+//! Compiled only with `--cfg slotted_egraphs_verif`; adds no behaviour.
+use crate::*;
+
+/// Public wrapper around the crate-private permutation group `Group<Perm>`.
+pub struct VerifGroup(Group<Perm>);
+
+impl VerifGroup {
+    pub fn new(identity: &SlotMap, generators: Vec<SlotMap>) -> Self {
+        VerifGroup(Group::new(identity, generators.into_iter().collect()))
+    }
+    pub fn contains(&self, p: &SlotMap) -> bool {
+        self.0.contains(p)
+    }
+    pub fn all_perms(&self) -> Vec<SlotMap> {
+        self.0.all_perms()
+    }
+    pub fn count(&self) -> usize {
+        self.0.count()
+    }
+    pub fn orbit(&self, s: Slot) -> Vec<Slot> {
+        self.0.orbit(s).into_iter().collect()
+    }
+    pub fn add_set(&mut self, perms: Vec<SlotMap>) -> bool {
+        self.0.add_set(perms.into_iter().collect())
+    }
+    pub fn generators(&self) -> Vec<SlotMap> {
+        self.0.generators().into_iter().collect()
+    }
+    pub fn is_trivial(&self) -> bool {
+        self.0.is_trivial()
+    }
+}
